@@ -116,8 +116,9 @@ pub fn mutants(rng: &mut Rng, w: &Written, chunks: &[Chunk], tier: Tier, lenient
             // 4. compressed size too small: remove d bytes from the declared size
             //    (the bytes stay in the stream, so only the declared size is wrong)
             if info.packed > 1 {
-                for k in 0..per {
-                    let d = if k == 0 { 1 } else { rng.range(1, (info.packed - 1) as u64) as usize };
+                let all = info.packed <= 48;
+                for k in 0..(if all { info.packed - 1 } else { per }) {
+                    let d = if all { k + 1 } else if k == 0 { 1 } else { rng.range(1, (info.packed - 1) as u64) as usize };
                     let mut b = w.bytes.clone();
                     let p = info.packed - d - 1;
                     b[info.start + 3] = (p >> 8) as u8;
@@ -321,6 +322,133 @@ fn fam_marker(ctx: &CaseCtx, cov: &mut Cov) -> CaseOut {
     out
 }
 
+/// every control byte 0x03-0x7F and every invalid property byte, at every chunk
+/// position of one base stream (systematic, not sampled)
+fn fam_systematic(ctx: &CaseCtx, cov: &mut Cov) -> CaseOut {
+    let mut out = CaseOut::default();
+    let mut rng = ctx.rng();
+    let mut p = L2Params::standard(3, 40);
+    p.w = [1, 2, 2, 2, 6, 3];
+    let chunks = gen_chunks(&mut rng, &p);
+    let w = match lzma2::write(&chunks) {
+        Ok(w) => w,
+        Err(_) => return out,
+    };
+    if !run_one(0, &w.bytes).is_ok() {
+        out.harness_error("base stream not accepted");
+        return out;
+    }
+    for info in &w.chunks {
+        for v in 3u8..=0x7F {
+            let mut b = w.bytes.clone();
+            b[info.start] = v;
+            let api = (v as usize) % 3;
+            let r = run_one(api, &b);
+            out.evals += 1;
+            cov.inc("rule", 0);
+            cov.add("control_byte_value", v as u32, 1);
+            if !r.is_err() {
+                out.violate(format!("C17/{}/{}", RULES[0], if r.is_ok() { "accepted".to_string() } else { verdict_sig(&r) }), format!("control byte {:#04x} at chunk start {}: {}", v, info.start, r.short()), J::obj().set("input_hex", J::s(crate::util::hex_trunc(&b, 2048))));
+            }
+        }
+        if info.control >= 0x80 && info.has_props {
+            for v in 0u16..=255 {
+                let v = v as u8;
+                let bad = match Props::from_byte(v) {
+                    None => true,
+                    Some(p) => p.lc + p.lp > 4,
+                };
+                if !bad {
+                    continue;
+                }
+                let mut b = w.bytes.clone();
+                b[info.start + 5] = v;
+                let api = (v as usize) % 3;
+                let r = run_one(api, &b);
+                out.evals += 1;
+                cov.inc("rule", if v >= 225 { 1 } else { 2 });
+                cov.add("invalid_property_byte_value", v as u32, 1);
+                if !r.is_err() {
+                    out.violate(format!("C17/{}/{}", RULES[if v >= 225 { 1 } else { 2 }], if r.is_ok() { "accepted".to_string() } else { verdict_sig(&r) }), format!("property byte {} at chunk start {}: {}", v, info.start, r.short()), J::obj().set("input_hex", J::s(crate::util::hex_trunc(&b, 2048))));
+                }
+            }
+        }
+    }
+    out.nontrivial.push(case_hash(&[&w.bytes, b"systematic"]));
+    out
+}
+
+/// streams made of uncompressed chunks only: every size field moved by +-1..3 at
+/// every position; here the reference reader is exact (no range coder involved),
+/// so its verdict is binding in both directions
+fn fam_raw_only(ctx: &CaseCtx, cov: &mut Cov) -> CaseOut {
+    let mut out = CaseOut::default();
+    let mut rng = ctx.rng();
+    let n = rng.range(1, 5) as usize;
+    let mut chunks = Vec::new();
+    for i in 0..n {
+        let len = *rng.pick(&[1usize, 2, 3, 5, 17, 255, 256, 257]);
+        let mut data = rng.bytes(len);
+        // plant bytes that look like control bytes / terminators
+        if rng.chance(1, 2) {
+            let k = rng.usize_below(data.len());
+            data[k] = *rng.pick(&[0u8, 1, 2]);
+        }
+        chunks.push(Chunk::Raw { reset_dict: i == 0 || rng.chance(1, 4), data });
+    }
+    let w = match lzma2::write(&chunks) {
+        Ok(w) => w,
+        Err(_) => return out,
+    };
+    for info in &w.chunks {
+        for delta in [-3i32, -2, -1, 1, 2, 3] {
+            let v = info.unpacked as i32 + delta;
+            if v < 1 || v > 65536 {
+                continue;
+            }
+            let mut b = w.bytes.clone();
+            let u = (v - 1) as usize;
+            b[info.start + 1] = (u >> 8) as u8;
+            b[info.start + 2] = u as u8;
+            let reference = lzma2::read(&b, false, false);
+            let api = rng.usize_below(3);
+            let sink = SharedSink::new();
+            let obs = sut::new_obs(u64::MAX);
+            let c = match api {
+                0 | 2 => sut::decode(Entry::Lzma2, &b, &sut::default_options(), ReaderKind::Slice, &sink, &obs),
+                _ => {
+                    let mut d = Lzma2Decoder::new();
+                    sut::raw_lzma2_decompress(&mut d, &b, ReaderKind::Buf(3), &sink, &obs)
+                }
+            };
+            out.evals += 1;
+            cov.inc("rule", 7);
+            cov.name("raw_only_size_mutants", 1);
+            out.nontrivial.push(case_hash(&[&b, &[api as u8]]));
+            match (&reference, &c.verdict) {
+                (Err(_), Verdict::Err(_)) => {}
+                (Ok(r), Verdict::Ok) => {
+                    if r.output != sink.bytes() || r.consumed != c.consumed {
+                        out.violate("C17/raw-only/accepted-with-different-result", format!("size {} -> {}: reference and lzma-rs both accept but differ", info.unpacked, v), J::obj().set("input_hex", J::s(crate::util::hex_trunc(&b, 2048))));
+                    }
+                    cov.name("raw_only_mutants_still_well_formed", 1);
+                }
+                (Err(e), other) => out.violate(
+                    format!("C17/{}/{}", RULES[7], if other.is_ok() { "accepted".to_string() } else { verdict_sig(other) }),
+                    format!("uncompressed chunk size {} -> {} (reference: {:?}): {}", info.unpacked, v, e, other.short()),
+                    J::obj().set("input_hex", J::s(crate::util::hex_trunc(&b, 2048))),
+                ),
+                (Ok(_), other) => out.violate(
+                    format!("C17/raw-only/rejected-well-formed/{}", verdict_sig(other)),
+                    format!("uncompressed chunk size {} -> {} still gives a well-formed stream, but: {}", info.unpacked, v, other.short()),
+                    J::obj().set("input_hex", J::s(crate::util::hex_trunc(&b, 2048))),
+                ),
+            }
+        }
+    }
+    out
+}
+
 fn label(group: &str, i: u32) -> String {
     match group {
         "rule" => RULES[i as usize].to_string(),
@@ -341,12 +469,14 @@ pub fn monitor(tier: Tier) -> Monitor {
     Monitor {
         id: "C17",
         level: "fault_enumeration",
-        rule: "per base stream (a valid chunk sequence accepted by lzma-rs) enumerate framing faults at every chunk position: control bytes 0x03-0x7F, property bytes >= 225 and with lc+lp > 4, decremented compressed sizes, uncompressed sizes inside a symbol / beyond the payload (judged by the reference decoder on the mutated chunk), over-long last uncompressed chunk, end marker inside a chunk, and every truncation point (all prefixes of short streams, sampled + all structural boundaries for long ones); each mutant confirmed invalid by the reference reader; run through lzma2_decompress / raw decoder / a CRC-consistent .xz wrapper; distinct by hash of (mutant bytes, api)",
+        rule: "per base stream (a valid chunk sequence accepted by lzma-rs) enumerate framing faults at every chunk position (a systematic family walks EVERY control byte 0x03-0x7F and EVERY invalid property byte; a raw-chunk-only family moves every size field by +-1..3 with the reference reader binding in both directions; every decrement of the compressed size for chunks up to 48 bytes): control bytes 0x03-0x7F, property bytes >= 225 and with lc+lp > 4, decremented compressed sizes, uncompressed sizes inside a symbol / beyond the payload (judged by the reference decoder on the mutated chunk), over-long last uncompressed chunk, end marker inside a chunk, and every truncation point (all prefixes of short streams, sampled + all structural boundaries for long ones); each mutant confirmed invalid by the reference reader; run through lzma2_decompress / raw decoder / a CRC-consistent .xz wrapper; distinct by hash of (mutant bytes, api)",
         assumptions: vec![
             "expected verdict Err by construction, confirmed per mutant by the reference LZMA2 reader".into(),
             "not judged (counted as lenient.*): a declared uncompressed size lowered onto a symbol boundary, and declared compressed sizes larger than needed - lzma-rs does not check that a chunk's bytes are all used; the statement lists 'needs more input than declared' only".into(),
         ],
         families: vec![
+            Family { name: "systematic_bytes", count: tier.pick(12, 200), priority: true, enumerated: false, run: fam_systematic },
+            Family { name: "raw_only_sizes", count: tier.pick(1500, 40_000), priority: false, enumerated: false, run: fam_raw_only },
             Family { name: "marker_in_chunk", count: tier.pick(2_000, 20_000), priority: true, enumerated: false, run: fam_marker },
             Family { name: "base_streams", count: tier.pick(6_000, 120_000), priority: false, enumerated: false, run: fam_base },
         ],
